@@ -221,7 +221,7 @@ fn distinct_reload_tags(sp: &mut SProblem) {
 }
 
 pub fn gen_cases(rng: &mut Rng, tier: Tier, cases: &mut Vec<Value>) {
-    let n = if tier == Tier::Thorough { 2500 } else { 110 };
+    let n = if tier == Tier::Thorough { 3000 } else { 160 };
     for i in 0..n {
         let mut cfg = GenCfg::random(rng);
         cfg.jobs = (3, 10);
